@@ -67,6 +67,13 @@ def _worker(modname, tier, seed, widx, ncases, q):
                     stats["inconclusive"] += 1
                     stats["events"]["inconclusive: " + str(e)[:80]] += 1
                 return
+            except (RecursionError, KeyError, ValueError, TypeError, IndexError, AttributeError, OSError) as e:
+                d = os.path.join(VERIF, "target", "errors")
+                os.makedirs(d, exist_ok=True)
+                with open(os.path.join(d, "%s-%s.json" % (spec.id, case_hash(case))), "w") as f:
+                    json.dump({"property": spec.id, "case": case, "error": repr(e)[:500],
+                               "tb": traceback.format_exc()[-3000:]}, f, indent=1, default=str)
+                raise
             counting = not state["failed"]
             if counting:
                 stats["evaluations"] += 1
